@@ -152,6 +152,9 @@ pub fn run(ctx: &mut Ctx) {
     streams(ctx);
     streams2(ctx);
     streams3(ctx);
+    streams_build(ctx);
+    streams_reserved(ctx);
+    streams_values(ctx);
     // repo test data as read-only seeds
     let repo = std::env::var("VERIF_REPO").unwrap_or_else(|_| "/repo".into());
     for dir in ["diagnostics", "ok"] {
@@ -720,4 +723,455 @@ fn REG_DIR_CASES() -> Vec<(Vec<Vec<DA>>, Vec<DT>)> {
         (vec![vec![a(vec![], Some(0))]], vec![DT { kind: 0, dirs: vec![0], values: vec![], fields: vec![] }]),
         (vec![vec![a(vec![], Some(0))], vec![]], vec![DT { kind: 2, dirs: vec![1], values: vec![], fields: vec![a(vec![], Some(1))] }, DT { kind: 1, dirs: vec![0], values: vec![], fields: vec![] }]),
     ]
+}
+
+// ---------------------------------------------------------------------------------------------
+// growth 3: build-time rules, non-emptiness, reserved names, value coercion
+
+/// one definition of a `c14.build` document: tag as in lean/Driver/D13.lean (S X D O F T<k> E<k>)
+#[derive(Clone, Debug)]
+struct BD { tag: char, kind: usize, name: String, ifaces: Vec<String>, members: Vec<String> }
+
+const B_KIND_CH: [&str; 6] = ["s", "o", "i", "u", "e", "n"];
+const B_KIND_KW: [&str; 6] = ["scalar", "type", "interface", "union", "enum", "input"];
+
+fn bd_text(d: &BD) -> String {
+    match d.tag {
+        'S' | 'X' => {
+            let ops: Vec<String> = d.members.iter().map(|op| format!("{op}: Query")).collect();
+            let body = if ops.is_empty() { " @zz".to_string() } else { format!(" {{ {} }}", ops.join(" ")) };
+            format!("{}schema{}", if d.tag == 'X' { "extend " } else { "" }, body)
+        }
+        'D' => format!("directive @{} on OBJECT", d.name),
+        'O' => format!("query {} {{ a }}", d.name),
+        'F' => format!("fragment {} on Query {{ a }}", d.name),
+        _ => {
+            let ext = d.tag == 'E';
+            let mut t = format!("{}{} {}", if ext { "extend " } else { "" }, B_KIND_KW[d.kind], d.name);
+            if !d.ifaces.is_empty() { t.push_str(&format!(" implements {}", d.ifaces.join(" & "))); }
+            if d.members.is_empty() { if ext && d.ifaces.is_empty() { t.push_str(" @zz"); } }
+            else {
+                match d.kind {
+                    3 => t.push_str(&format!(" = {}", d.members.join(" | "))),
+                    4 => t.push_str(&format!(" {{ {} }}", d.members.join(" "))),
+                    _ => t.push_str(&format!(" {{ {} }}", d.members.iter().map(|m| format!("{m}: Int")).collect::<Vec<_>>().join(" "))),
+                }
+            }
+            t
+        }
+    }
+}
+
+fn backticked_parts(m: &str) -> Vec<String> { m.split('`').enumerate().filter(|(i, _)| i % 2 == 1).map(|(_, x)| x.trim_start_matches('@').to_string()).collect() }
+
+/// the diagnostics of `SchemaBuilder::build`, in the vocabulary of `diagStr` (lean/Driver/D13.lean) without kinds
+fn build_diag(m: &str) -> String {
+    let b = backticked_parts(m);
+    let g = |i: usize| b.get(i).cloned().unwrap_or_default();
+    if m.starts_with("a schema document must not contain") { "exec".into() }
+    else if m.starts_with("must not have multiple `schema`") { "schemacoll".into() }
+    else if m.starts_with("the directive") { format!("dircoll({})", g(0)) }
+    else if m.starts_with("the type") && m.contains("defined multiple times") { format!("typecoll({})", g(0)) }
+    else if m.starts_with("built-in scalar definitions") { "builtinscalar".into() }
+    else if m.starts_with("schema extension without") { "orphanschema".into() }
+    else if m.starts_with("type extension for undefined type") { format!("orphantype({})", g(0)) }
+    else if m.starts_with("adding ") { format!("mismatch({})", g(0)) }
+    else if m.contains("root operation type") { format!("duproot({})", g(0)) }
+    else if m.contains("more than once") { format!("dupiface({},{})", g(0), g(1)) }
+    else if m.starts_with("duplicate definitions for the") { format!("dupmember({},{})", g(1), g(0)) }
+    else { format!("other:{m}") }
+}
+
+fn build_case(ctx: &mut Ctx, ds: &[BD]) {
+    let text: String = ds.iter().map(|d| bd_text(d) + "\n").collect();
+    // the abstraction has no syntax: documents the parser rejects are not cases
+    if ast::Document::parse(text.clone(), "s.graphql").is_err() { ctx.stat("build_skipped_syntax"); return; }
+    let encd: Vec<String> = ds.iter().map(|d| {
+        let tag = match d.tag { 'T' | 'E' => format!("{}{}", d.tag, B_KIND_CH[d.kind]), c => c.to_string() };
+        format!("{tag},{},{},{}", d.name, d.ifaces.join("+"), d.members.join("+"))
+    }).collect();
+    let out = match catch(|| {
+        let b = crate::p13::build_schema(&[text.clone()], false, false);
+        let mut diags: Vec<String> = match &b.errors { Some(l) => l.iter().map(|d| build_diag(&d.error.to_string())).collect(), None => vec![] };
+        diags.sort();
+        // non-emptiness is a rule of validation; it is looked at only when the build reported nothing
+        let mut empty: Vec<String> = vec![];
+        if diags.is_empty() {
+            if let Err(e) = Schema::parse_and_validate(text.clone(), "s.graphql") {
+                for d in e.errors.iter() {
+                    if matches!(d.error.unstable_error_name(), Some("EmptyFieldSet" | "EmptyValueSet" | "EmptyMemberSet" | "EmptyInputValueSet")) {
+                        empty.push(backticked_parts(&d.error.to_string()).first().cloned().unwrap_or_default());
+                    }
+                }
+            }
+            empty.sort();
+        }
+        (diags, empty)
+    }) {
+        Err(p) => { ctx.fail("schema-validation-panic", &text, &p); "PANIC".to_string() }
+        Ok((diags, empty)) => {
+            for d in &diags { ctx.stat(&format!("build_diag:{}", d.split('(').next().unwrap_or("?"))); }
+            if diags.is_empty() { ctx.stat("build_ok"); if !empty.is_empty() { ctx.stat("build_ok_with_empty_type"); } }
+            if diags.len() == 1 { ctx.nontrivial(&format!("bd|{}", diags[0].split('(').next().unwrap_or("?"))); }
+            if !empty.is_empty() { ctx.nontrivial(&format!("be|{}", empty.len())); }
+            format!("E[{}]N[{}]", diags.join(" "), empty.join(" "))
+        }
+    };
+    ctx.case("c14.build", &[enc(&encd.join(";"))], &out);
+    judge(ctx, &text, "stream-build");
+}
+
+fn streams_build(ctx: &mut Ctx) {
+    let t = |kind: usize, name: &str, ifaces: &[&str], members: &[&str]| BD { tag: 'T', kind, name: name.into(), ifaces: ifaces.iter().map(|s| s.to_string()).collect(), members: members.iter().map(|s| s.to_string()).collect() };
+    let e = |kind: usize, name: &str, ifaces: &[&str], members: &[&str]| BD { tag: 'E', ..t(kind, name, ifaces, members) };
+    let sch = |tag: char, ops: &[&str]| BD { tag, kind: 0, name: String::new(), ifaces: vec![], members: ops.iter().map(|s| s.to_string()).collect() };
+    let other = |tag: char, name: &str| BD { tag, kind: 0, name: name.into(), ifaces: vec![], members: vec![] };
+    let q = || t(1, "Query", &[], &["a"]);
+    // directed cases: every rule alone, extension before / after its definition
+    let fixed: Vec<Vec<BD>> = vec![
+        vec![q()],
+        vec![q(), t(1, "A", &[], &[])], vec![q(), t(1, "A", &[], &[]), e(1, "A", &[], &["x"])], vec![q(), e(1, "A", &[], &["x"]), t(1, "A", &[], &[])],
+        vec![q(), t(2, "A", &[], &[])], vec![q(), t(3, "A", &[], &[])], vec![q(), t(3, "A", &[], &[]), e(3, "A", &[], &["Query"])],
+        vec![q(), t(4, "A", &[], &[])], vec![q(), t(4, "A", &[], &[]), e(4, "A", &[], &["X"])], vec![q(), t(5, "A", &[], &[])], vec![q(), e(5, "A", &[], &["x"]), t(5, "A", &[], &[])],
+        vec![q(), t(0, "A", &[], &[])],
+        vec![q(), t(1, "A", &[], &["x"]), t(1, "A", &[], &["y"])], vec![q(), t(1, "A", &[], &["x"]), t(4, "A", &[], &["X"])],
+        vec![q(), t(0, "Int", &[], &[])], vec![q(), t(1, "Int", &[], &["x"])], vec![q(), t(1, "__Type", &[], &["x"])], vec![q(), e(0, "Int", &[], &[])], vec![q(), e(1, "Int", &[], &["x"])],
+        vec![q(), other('D', "d"), other('D', "d")], vec![q(), other('D', "skip")], vec![q(), other('D', "skip"), other('D', "skip")], vec![q(), other('D', "d"), other('D', "e")],
+        vec![q(), sch('S', &["query"])], vec![q(), sch('S', &["query"]), sch('S', &["query"])], vec![q(), sch('S', &["query", "query"])], vec![q(), sch('S', &["query"]), sch('X', &["query"])],
+        vec![q(), sch('X', &["mutation"])], vec![q(), sch('X', &["query"])], vec![t(1, "A", &[], &["x"]), sch('X', &["query"])], vec![t(1, "A", &[], &["x"]), sch('X', &[])],
+        vec![q(), sch('X', &["mutation"]), sch('S', &["query", "mutation"])], vec![q(), sch('X', &["mutation"]), sch('S', &["query"]), sch('X', &["subscription"])],
+        vec![q(), t(1, "Mutation", &[], &["x"]), sch('X', &["mutation"])],
+        vec![q(), e(1, "A", &[], &["x"])], vec![q(), e(4, "A", &[], &["X"]), t(1, "A", &[], &["y"])], vec![q(), t(1, "A", &[], &["y"]), e(4, "A", &[], &["X"])],
+        vec![q(), e(1, "A", &[], &["x"]), e(1, "A", &[], &["x"]), t(1, "A", &[], &["y"])], vec![q(), t(1, "A", &[], &["y"]), e(1, "A", &[], &["y"])],
+        vec![q(), t(1, "A", &[], &["x", "x"])], vec![q(), t(4, "A", &[], &["X", "X"])], vec![q(), t(3, "A", &[], &["Query", "Query"])], vec![q(), t(5, "A", &[], &["x", "x"])],
+        vec![q(), t(2, "I", &[], &["x"]), t(1, "A", &["I", "I"], &["x"])], vec![q(), t(2, "I", &[], &["x"]), t(1, "A", &["I"], &["x"]), e(1, "A", &["I"], &[])],
+        vec![q(), t(2, "I", &[], &["x"]), t(2, "J", &["I", "I"], &["x"])],
+        vec![q(), other('O', "Q")], vec![q(), other('F', "F")],
+    ];
+    for ds in &fixed { build_case(ctx, ds); }
+    // a definition without members and an extension that adds none / adds one, in both orders, for every kind
+    for k in 1..6usize {
+        let m: &[&str] = match k { 3 => &["Query"], 4 => &["X"], _ => &["x"] };
+        build_case(ctx, &[q(), t(k, "A", &[], &[]), e(k, "A", &[], &[])]);
+        build_case(ctx, &[q(), e(k, "A", &[], &[]), t(k, "A", &[], &[])]);
+        build_case(ctx, &[q(), t(k, "A", &[], &[]), e(k, "A", &[], &[]), e(k, "A", &[], m)]);
+        build_case(ctx, &[q(), e(k, "A", &[], m), e(k, "A", &[], &[]), t(k, "A", &[], &[])]);
+    }
+    let names = ["A", "B", "Query", "Mutation", "Int", "__Type", "I"];
+    let n = if ctx.thorough { 40_000 } else { 3_000 };
+    for _ in 0..n {
+        let len = 1 + ctx.rng.below(6);
+        let mut ds: Vec<BD> = vec![];
+        if ctx.rng.chance(3, 4) { ds.push(q()); }
+        for _ in 0..len {
+            let r = ctx.rng.below(20);
+            let name = names[if ctx.rng.chance(2, 3) { ctx.rng.below(3) } else { ctx.rng.below(names.len()) }].to_string();
+            let d = match r {
+                0 => other('O', "Q"),
+                1 => other('F', "F"),
+                2 | 3 => other('D', *ctx.rng.pick(&["d", "e", "skip", "deprecated"])),
+                4 | 5 => { let k = 1 + ctx.rng.below(3); let ops: Vec<&str> = (0..k).map(|_| *ctx.rng.pick(&["query", "mutation", "subscription", "query"])).collect(); sch('S', &ops[..if ctx.rng.chance(2, 3) { 1 } else { k }]) }
+                6 | 7 => { let k = ctx.rng.below(3); let ops: Vec<&str> = (0..k).map(|_| *ctx.rng.pick(&["query", "mutation", "subscription"])).collect(); sch('X', &ops) }
+                _ => {
+                    let kind = if ctx.rng.chance(1, 2) { 1 } else { ctx.rng.below(6) };
+                    let pool: &[&str] = match kind { 3 => &["Query", "A", "B"], 4 => &["X", "Y", "Z"], _ => &["x", "y", "z"] };
+                    let nm = if kind == 0 { 0 } else { ctx.rng.below(3) };
+                    let members: Vec<&str> = (0..nm).map(|_| *ctx.rng.pick(pool)).collect();
+                    let ni = if kind == 1 || kind == 2 { if ctx.rng.chance(1, 3) { 1 + ctx.rng.below(2) } else { 0 } } else { 0 };
+                    let ifs: Vec<&str> = (0..ni).map(|_| *ctx.rng.pick(&["I", "J"])).collect();
+                    let mut d = t(kind, &name, &ifs, &members);
+                    if ctx.rng.chance(2, 5) { d.tag = 'E'; }
+                    d
+                }
+            };
+            ds.push(d);
+        }
+        if ctx.rng.chance(1, 3) { let i = ctx.rng.below(ds.len()); let j = ctx.rng.below(ds.len()); ds.swap(i, j); }
+        build_case(ctx, &ds);
+    }
+}
+
+// ---- reserved names
+
+#[derive(Clone, Debug)]
+struct RField { name: String, args: Vec<String> }
+#[derive(Clone, Debug)]
+enum RMembers { None, Fields(Vec<RField>), Values(Vec<String>), Inputs(Vec<String>) }
+#[derive(Clone, Debug)]
+struct RType { kw: &'static str, name: String, extend_builtin: bool, members: RMembers }
+
+fn reserved_case(ctx: &mut Ctx, dirs: &[(String, Vec<String>)], types: &[RType]) {
+    let mut text = String::from("type Query { a: Int }\n");
+    for (n, args) in dirs {
+        let a = if args.is_empty() { String::new() } else { format!("({})", args.iter().map(|x| format!("{x}: Int")).collect::<Vec<_>>().join(", ")) };
+        text.push_str(&format!("directive @{n}{a} on OBJECT\n"));
+    }
+    for t in types {
+        let body = match &t.members {
+            RMembers::None => if t.kw == "union" { " = Query".to_string() } else { String::new() },
+            RMembers::Fields(fs) => format!(" {{ {} }}", fs.iter().map(|f| format!("{}{}: Int", f.name, if f.args.is_empty() { String::new() } else { format!("({})", f.args.iter().map(|x| format!("{x}: Int")).collect::<Vec<_>>().join(", ")) })).collect::<Vec<_>>().join(" ")),
+            RMembers::Values(vs) => format!(" {{ {} }}", vs.join(" ")),
+            RMembers::Inputs(fs) => format!(" {{ {} }}", fs.iter().map(|f| format!("{f}: Int")).collect::<Vec<_>>().join(" ")),
+        };
+        text.push_str(&format!("{}{} {}{}\n", if t.extend_builtin { "extend " } else { "" }, t.kw, t.name, body));
+    }
+    if ast::Document::parse(text.clone(), "s.graphql").is_err() { ctx.stat("reserved_skipped_syntax"); return; }
+    let out = match catch(|| match Schema::parse_and_validate(text.clone(), "s.graphql") {
+        Ok(_) => vec![],
+        Err(e) => e.errors.iter().filter(|d| d.error.unstable_error_name() == Some("ReservedName")).map(|d| {
+            let m = d.error.to_string();
+            let site = if m.starts_with("a directive definition") { "directive" } else if m.starts_with("a field") { "field" } else if m.starts_with("an argument") { "argument" }
+                else if m.starts_with("an enum value") { "enumValue" } else if m.starts_with("an input object field") { "inputField" } else if m.contains(" type cannot be named") { "type" } else { "?" };
+            format!("{site}:{}", backticked_parts(&m).first().cloned().unwrap_or_default())
+        }).collect::<Vec<_>>(),
+    }) {
+        Err(p) => { ctx.fail("schema-validation-panic", &text, &p); "PANIC".to_string() }
+        Ok(mut v) => { v.sort(); for x in &v { ctx.stat(&format!("reserved_site:{}", x.split(':').next().unwrap_or("?"))); } if v.is_empty() { ctx.stat("reserved_none"); "ok".to_string() } else { ctx.nontrivial(&format!("rs|{}", v.join(","))); v.join(",") } }
+    };
+    // encoding: `<flag><name>` with flag 1 = the name is located in the built-in file
+    let denc: Vec<String> = dirs.iter().map(|(n, a)| format!("0{n}/{}", a.iter().map(|x| format!("0{x}")).collect::<Vec<_>>().join("+"))).collect();
+    let tenc: Vec<String> = types.iter().map(|t| {
+        let flag = if t.extend_builtin { 1 } else { 0 };
+        let m = match &t.members {
+            RMembers::None => "n".to_string(),
+            RMembers::Fields(fs) => format!("f{}", fs.iter().map(|f| format!("0{}~{}", f.name, f.args.iter().map(|x| format!("0{x}")).collect::<Vec<_>>().join("^"))).collect::<Vec<_>>().join("+")),
+            RMembers::Values(vs) => format!("v{}", vs.iter().map(|x| format!("0{x}")).collect::<Vec<_>>().join("+")),
+            RMembers::Inputs(fs) => format!("i{}", fs.iter().map(|x| format!("0{x}")).collect::<Vec<_>>().join("+")),
+        };
+        format!("{flag}{}/{m}", t.name)
+    }).collect();
+    // the built-in definitions are part of `schema.types` / `schema.directive_definitions` and are walked too
+    let builtin_t = ["1__Schema/n", "1__Type/n", "1__TypeKind/n", "1__Field/n", "1__InputValue/n", "1__EnumValue/n", "1__Directive/n", "1__DirectiveLocation/n"];
+    let mut all_t: Vec<String> = builtin_t.iter().map(|s| s.to_string()).collect();
+    all_t.extend(tenc);
+    ctx.case("c14.reserved", &[enc(&denc.join(";")), enc(&all_t.join(";"))], &out);
+    judge(ctx, &text, "stream-reserved");
+}
+
+fn streams_reserved(ctx: &mut Ctx) {
+    let pool = ["a", "b", "c", "d", "x", "y", "ab", "__a", "_a", "a__", "__", "___x", "_", "__typename", "__b", "a_b"];
+    let n = if ctx.thorough { 12_000 } else { 1_200 };
+    // directed: one reserved name at each site
+    for site in 0..7 {
+        let nm = |k: usize| if k == site { "__r".to_string() } else { format!("n{k}") };
+        let dirs = vec![(nm(0), vec![nm(1)])];
+        let types = vec![
+            RType { kw: "type", name: nm(2), extend_builtin: false, members: RMembers::Fields(vec![RField { name: nm(3), args: vec![nm(4)] }]) },
+            RType { kw: "enum", name: "E".into(), extend_builtin: false, members: RMembers::Values(vec![nm(5)]) },
+            RType { kw: "input", name: "N".into(), extend_builtin: false, members: RMembers::Inputs(vec![nm(6)]) },
+        ];
+        reserved_case(ctx, &dirs, &types);
+    }
+    reserved_case(ctx, &[], &[RType { kw: "type", name: "__Type".into(), extend_builtin: true, members: RMembers::Fields(vec![RField { name: "__x".into(), args: vec!["__y".into()] }, RField { name: "ok".into(), args: vec![] }]) }]);
+    reserved_case(ctx, &[], &[RType { kw: "enum", name: "__TypeKind".into(), extend_builtin: true, members: RMembers::Values(vec!["__V".into(), "W".into()]) }]);
+    for _ in 0..n {
+        let mut used: Vec<String> = vec!["Query".into()];
+        let fresh = |ctx: &mut Ctx, used: &mut Vec<String>, cap: bool| -> Option<String> {
+            for _ in 0..6 { let mut c = ctx.rng.pick(&pool).to_string(); if cap { c = c.replace('a', "T").replace('b', "U"); } if !used.contains(&c) { used.push(c.clone()); return Some(c); } }
+            None
+        };
+        let mut dirs = vec![];
+        let mut dnames: Vec<String> = vec![];
+        for _ in 0..ctx.rng.below(3) {
+            if let Some(n) = fresh(ctx, &mut dnames, false) {
+                let mut an: Vec<String> = vec![];
+                let args: Vec<String> = (0..ctx.rng.below(3)).filter_map(|_| fresh(ctx, &mut an, false)).collect();
+                dirs.push((n, args));
+            }
+        }
+        let mut types = vec![];
+        for _ in 0..1 + ctx.rng.below(4) {
+            let Some(name) = fresh(ctx, &mut used, true) else { continue };
+            let k = ctx.rng.below(6);
+            let mut local: Vec<String> = vec![];
+            let t = match k {
+                0 => RType { kw: "scalar", name, extend_builtin: false, members: RMembers::None },
+                1 => RType { kw: "union", name, extend_builtin: false, members: RMembers::None },
+                2 | 3 => {
+                    let nf = 1 + ctx.rng.below(3);
+                    let mut fs: Vec<RField> = vec![];
+                    for _ in 0..nf {
+                        let Some(n) = fresh(ctx, &mut local, false) else { continue };
+                        let mut an: Vec<String> = vec![];
+                        let na = ctx.rng.below(3);
+                        let mut args = vec![];
+                        for _ in 0..na { if let Some(a) = fresh(ctx, &mut an, false) { args.push(a); } }
+                        fs.push(RField { name: n, args });
+                    }
+                    RType { kw: if k == 2 { "type" } else { "interface" }, name, extend_builtin: false, members: RMembers::Fields(fs) }
+                }
+                4 => { let vs: Vec<String> = (0..1 + ctx.rng.below(3)).filter_map(|_| fresh(ctx, &mut local, true)).collect(); RType { kw: "enum", name, extend_builtin: false, members: RMembers::Values(vs) } }
+                _ => { let fs: Vec<String> = (0..1 + ctx.rng.below(3)).filter_map(|_| fresh(ctx, &mut local, false)).collect(); RType { kw: "input", name, extend_builtin: false, members: RMembers::Inputs(fs) } }
+            };
+            types.push(t);
+        }
+        reserved_case(ctx, &dirs, &types);
+    }
+}
+
+// ---- value coercion (`value_of_correct_type` through directive arguments)
+
+#[derive(Clone, Debug)]
+enum VTy { Named(String), NonNullNamed(String), List(Box<VTy>), NonNullList(Box<VTy>) }
+impl VTy {
+    fn text(&self) -> String { match self { VTy::Named(n) => n.clone(), VTy::NonNullNamed(n) => format!("{n}!"), VTy::List(t) => format!("[{}]", t.text()), VTy::NonNullList(t) => format!("[{}]!", t.text()) } }
+    fn toks(&self) -> String { match self { VTy::Named(n) => format!("N {n}"), VTy::NonNullNamed(n) => format!("M {n}"), VTy::List(t) => format!("L {}", t.toks()), VTy::NonNullList(t) => format!("K {}", t.toks()) } }
+}
+#[derive(Clone, Debug)]
+enum VVal { Int(String), Float(String), Str, Bool, Null, Enum(String), Var(String), List(Vec<VVal>), Obj(Vec<(String, VVal)>) }
+impl VVal {
+    fn text(&self) -> String {
+        match self {
+            VVal::Int(s) | VVal::Float(s) => s.clone(), VVal::Str => "\"s\"".into(), VVal::Bool => "true".into(), VVal::Null => "null".into(),
+            VVal::Enum(e) => e.clone(), VVal::Var(v) => format!("${v}"),
+            VVal::List(xs) => format!("[{}]", xs.iter().map(|x| x.text()).collect::<Vec<_>>().join(", ")),
+            VVal::Obj(fs) => format!("{{{}}}", fs.iter().map(|(n, x)| format!("{n}: {}", x.text())).collect::<Vec<_>>().join(", ")),
+        }
+    }
+    fn toks(&self) -> String {
+        match self {
+            VVal::Int(s) => format!("i {s}"),
+            VVal::Float(s) => format!("f {}", if s.parse::<f64>().is_ok_and(|f| f.is_finite()) { 1 } else { 0 }),
+            VVal::Str => "s".into(), VVal::Bool => "b".into(), VVal::Null => "n".into(),
+            VVal::Enum(e) => format!("e {e}"), VVal::Var(v) => format!("v {v}"),
+            VVal::List(xs) => format!("l {}{}", xs.len(), xs.iter().map(|x| format!(" {}", x.toks())).collect::<String>()),
+            VVal::Obj(fs) => format!("o {}{}", fs.len(), fs.iter().map(|(n, x)| format!(" {n} {}", x.toks())).collect::<String>()),
+        }
+    }
+}
+
+/// the fixed type environment of the stream: (name, definition text, encoding)
+fn value_env() -> (String, String) {
+    let text = "scalar S\nenum E { A B }\ninput I { a: Int! b: String = \"x\" c: [I!] d: S e: E f: Int! = 1 g: [Int] }\ninput J { i: I! s: [S!]! }\ninput R { r: R x: ID }\ntype O { x: Int }\n".to_string();
+    let encd = "S=S0;E=E:A+B;I=I:a/M Int/0+b/N String/1+c/L M I/0+d/N S/0+e/N E/0+f/M Int/1+g/L N Int/0;J=I:i/M I/0+s/K M S/0;R=I:r/N R/0+x/N ID/0;O=O;Query=O".to_string();
+    (text, encd)
+}
+
+const V_KINDS: [&str; 8] = ["UnsupportedValueType", "IntCoercionError", "FloatCoercionError", "UndefinedEnumValue", "UndefinedVariable", "UniqueInputValue", "UndefinedInputValue", "RequiredField"];
+
+fn value_case(ctx: &mut Ctx, ty: &VTy, v: &VVal) {
+    let (env, envenc) = value_env();
+    let text = format!("{env}directive @d(arg: {}) on OBJECT\ntype Query @d(arg: {}) {{ a: Int }}\n", ty.text(), v.text());
+    if ast::Document::parse(text.clone(), "s.graphql").is_err() { ctx.stat("values_skipped_syntax"); return; }
+    let out = match catch(|| match Schema::parse_and_validate(text.clone(), "s.graphql") {
+        Ok(_) => Ok(vec![]),
+        Err(e) => {
+            let mut v = vec![];
+            for d in e.errors.iter() {
+                match d.error.unstable_error_name() { Some(n) if V_KINDS.contains(&n) => v.push(n.to_string()), Some("InputType") | Some("RequiredArgument") => {} other => return Err(format!("unexpected diagnostic {other:?}: {}", d.error)) }
+            }
+            Ok(v)
+        }
+    }) {
+        Err(p) => { ctx.fail("schema-validation-panic", &text, &p); "PANIC".to_string() }
+        Ok(Err(m)) => { ctx.fail("harness-error:values-stream", &text, &m); "UNEXPECTED".to_string() }
+        Ok(Ok(mut v)) => { v.sort(); for x in &v { ctx.stat(&format!("values_diag:{x}")); } if v.is_empty() { ctx.stat("values_ok"); "ok".to_string() } else { ctx.nontrivial(&format!("vd|{}|{}", ty.text(), v.join(","))); v.join(",") } }
+    };
+    ctx.case("c14.values", &[enc(&envenc), enc(&ty.toks()), enc(&v.toks())], &out);
+    judge(ctx, &text, "stream-values");
+}
+
+fn gen_vty(ctx: &mut Ctx, depth: usize) -> VTy {
+    let names = ["Int", "Float", "String", "Boolean", "ID", "S", "E", "I", "J", "R", "O"];
+    if depth < 2 && ctx.rng.chance(1, 3) {
+        let inner = Box::new(gen_vty(ctx, depth + 1));
+        if ctx.rng.chance(1, 2) { VTy::List(inner) } else { VTy::NonNullList(inner) }
+    } else {
+        let n = if ctx.rng.chance(1, 12) { "O" } else { names[ctx.rng.below(names.len() - 1)] }.to_string();
+        if ctx.rng.chance(1, 2) { VTy::Named(n) } else { VTy::NonNullNamed(n) }
+    }
+}
+
+fn big_int(bits_minus: bool) -> String {
+    // 2^1024 - 2^970 (the smallest integer that rounds to infinity) or one less, in decimal
+    let mut digits: Vec<u32> = vec![1];
+    let mul2 = |d: &mut Vec<u32>| { let mut c = 0; for x in d.iter_mut() { let v = *x * 2 + c; *x = v % 10; c = v / 10; } if c > 0 { d.push(c); } };
+    let mut p970 = vec![];
+    for i in 0..1024 { if i == 970 { p970 = digits.clone(); } mul2(&mut digits); }
+    // digits = 2^1024 ; subtract p970
+    let mut borrow = 0i64;
+    for i in 0..digits.len() { let s = *p970.get(i).unwrap_or(&0) as i64 + borrow; let mut v = digits[i] as i64 - s; if v < 0 { v += 10; borrow = 1; } else { borrow = 0; } digits[i] = v as u32; }
+    if bits_minus { let mut i = 0; loop { if digits[i] > 0 { digits[i] -= 1; break; } else { digits[i] = 9; i += 1; } } }
+    while digits.last() == Some(&0) { digits.pop(); }
+    digits.iter().rev().map(|d| char::from_digit(*d, 10).unwrap()).collect()
+}
+
+fn gen_vval(ctx: &mut Ctx, ty: Option<&VTy>, depth: usize) -> VVal {
+    // half of the time a value shaped after the type, otherwise anything
+    let shaped = ty.is_some() && ctx.rng.chance(3, 5);
+    if shaped {
+        let ty = ty.unwrap();
+        match ty {
+            VTy::List(t) | VTy::NonNullList(t) => {
+                if ctx.rng.chance(1, 8) { return VVal::Null; }
+                if ctx.rng.chance(1, 5) || depth > 3 { return gen_vval(ctx, Some(t), depth + 1); }
+                let n = ctx.rng.below(3);
+                return VVal::List((0..n).map(|_| gen_vval(ctx, Some(t), depth + 1)).collect());
+            }
+            VTy::Named(n) | VTy::NonNullNamed(n) => {
+                if ctx.rng.chance(1, 10) { return VVal::Null; }
+                return match n.as_str() {
+                    "Int" => VVal::Int(ctx.rng.pick(&["0", "1", "-5", "2147483647", "2147483648", "-2147483648", "-2147483649"]).to_string()),
+                    "Float" => if ctx.rng.chance(1, 2) { VVal::Float(ctx.rng.pick(&["1.5", "1e308", "1e309", "-1.7976931348623157e308", "1.7976931348623159e308", "0.0"]).to_string()) } else { VVal::Int(match ctx.rng.below(4) { 0 => big_int(true), 1 => big_int(false), 2 => "7".into(), _ => format!("-{}", big_int(false)) }) },
+                    "String" => VVal::Str, "Boolean" => VVal::Bool, "ID" => if ctx.rng.chance(1, 2) { VVal::Str } else { VVal::Int("12".into()) },
+                    "E" => VVal::Enum(ctx.rng.pick(&["A", "B", "C"]).to_string()),
+                    "S" => gen_vval(ctx, None, depth + 1),
+                    "I" | "J" | "R" if depth <= 3 => {
+                        let fields: Vec<(&str, VTy)> = match n.as_str() {
+                            "I" => vec![("a", VTy::NonNullNamed("Int".into())), ("b", VTy::Named("String".into())), ("c", VTy::List(Box::new(VTy::NonNullNamed("I".into())))), ("d", VTy::Named("S".into())), ("e", VTy::Named("E".into())), ("f", VTy::NonNullNamed("Int".into())), ("g", VTy::List(Box::new(VTy::Named("Int".into()))))],
+                            "J" => vec![("i", VTy::NonNullNamed("I".into())), ("s", VTy::NonNullList(Box::new(VTy::NonNullNamed("S".into()))))],
+                            _ => vec![("r", VTy::Named("R".into())), ("x", VTy::Named("ID".into()))],
+                        };
+                        let mut fs: Vec<(String, VVal)> = vec![];
+                        for (fname, fty) in &fields {
+                            let required = matches!(fty, VTy::NonNullNamed(_) | VTy::NonNullList(_)) && *fname != "f";
+                            if ctx.rng.chance(if required { 7 } else { 2 }, 8) { let v = gen_vval(ctx, Some(fty), depth + 1); fs.push((fname.to_string(), v)); }
+                        }
+                        if ctx.rng.chance(1, 10) { fs.push(("zz".into(), VVal::Int("1".into()))); }
+                        if ctx.rng.chance(1, 10) && !fs.is_empty() { let d = fs[ctx.rng.below(fs.len())].clone(); fs.push(d); }
+                        if ctx.rng.chance(1, 4) { fs.reverse(); }
+                        VVal::Obj(fs)
+                    }
+                    _ => VVal::Obj(vec![]),
+                };
+            }
+        }
+    }
+    match ctx.rng.below(if depth > 3 { 7 } else { 10 }) {
+        0 => VVal::Int(ctx.rng.pick(&["3", "2147483648", "-1"]).to_string()),
+        1 => VVal::Float(ctx.rng.pick(&["2.5", "1e400"]).to_string()),
+        2 => VVal::Str, 3 => VVal::Bool, 4 => VVal::Null,
+        5 => VVal::Enum(ctx.rng.pick(&["A", "C"]).to_string()),
+        6 => if ctx.rng.chance(1, 3) { VVal::Var("x".into()) } else { VVal::Str },
+        7 | 8 => { let n = ctx.rng.below(3); VVal::List((0..n).map(|_| gen_vval(ctx, None, depth + 1)).collect()) }
+        _ => { let n = ctx.rng.below(3); VVal::Obj((0..n).map(|_| (ctx.rng.pick(&["a", "b", "x"]).to_string(), gen_vval(ctx, None, depth + 1))).collect()) }
+    }
+}
+
+fn streams_values(ctx: &mut Ctx) {
+    let nn = |s: &str| VTy::NonNullNamed(s.into());
+    let nm = |s: &str| VTy::Named(s.into());
+    let int = |s: &str| VVal::Int(s.into());
+    let obj = |fs: Vec<(&str, VVal)>| VVal::Obj(fs.into_iter().map(|(n, v)| (n.to_string(), v)).collect());
+    let directed: Vec<(VTy, VVal)> = vec![
+        (nm("Int"), int("2147483647")), (nm("Int"), int("2147483648")), (nm("Int"), int("-2147483648")), (nm("Int"), int("-2147483649")), (nm("Int"), VVal::Float("1.0".into())), (nm("Int"), VVal::Str),
+        (nm("Float"), VVal::Int(big_int(true))), (nm("Float"), VVal::Int(big_int(false))), (nm("Float"), VVal::Float("1e309".into())), (nm("Float"), VVal::Float("1e308".into())),
+        (nm("ID"), int("1")), (nm("ID"), VVal::Str), (nm("ID"), VVal::Float("1.0".into())), (nm("String"), int("1")), (nm("Boolean"), VVal::Bool), (nm("Boolean"), VVal::Str),
+        (nn("Int"), VVal::Null), (nm("Int"), VVal::Null), (VTy::List(Box::new(nn("Int"))), VVal::List(vec![int("1"), VVal::Null])), (VTy::List(Box::new(nn("Int"))), VVal::Null), (VTy::NonNullList(Box::new(nm("Int"))), VVal::Null),
+        (VTy::List(Box::new(nm("Int"))), int("1")), (VTy::List(Box::new(VTy::List(Box::new(nm("Int"))))), int("1")), (VTy::List(Box::new(VTy::List(Box::new(nm("Int"))))), VVal::List(vec![int("1")])), (nm("Int"), VVal::List(vec![int("1")])),
+        (nm("E"), VVal::Enum("A".into())), (nm("E"), VVal::Enum("C".into())), (nm("E"), VVal::Str), (nm("Int"), VVal::Enum("A".into())),
+        (nm("S"), VVal::List(vec![int("1"), VVal::Null, obj(vec![("a", int("1")), ("a", int("2"))])])), (nm("S"), obj(vec![("a", obj(vec![("b", int("1")), ("b", int("1"))]))])), (nm("S"), obj(vec![("a", VVal::Var("x".into()))])), (nm("S"), VVal::Var("x".into())), (nm("S"), VVal::Enum("Z".into())),
+        (VTy::List(Box::new(nm("S"))), obj(vec![("a", int("1")), ("a", int("1"))])),
+        (nm("I"), obj(vec![("a", int("1"))])), (nm("I"), obj(vec![])), (nm("I"), obj(vec![("a", VVal::Null)])), (nm("I"), obj(vec![("a", int("1")), ("f", VVal::Null)])), (nm("I"), obj(vec![("a", int("1")), ("zz", int("1")), ("yy", int("1"))])),
+        (nm("I"), obj(vec![("a", int("1")), ("a", VVal::Str)])), (nm("I"), obj(vec![("a", VVal::Str), ("a", int("1"))])), (nm("I"), obj(vec![("a", int("1")), ("c", obj(vec![("a", int("1"))]))])), (nm("I"), obj(vec![("a", int("1")), ("c", VVal::List(vec![obj(vec![]), VVal::Null]))])),
+        (nm("I"), int("1")), (nm("I"), VVal::List(vec![])), (nm("J"), obj(vec![("i", obj(vec![("a", int("1"))])), ("s", VVal::List(vec![int("1"), VVal::Null]))])), (nm("R"), obj(vec![("r", obj(vec![("r", obj(vec![("x", VVal::Bool)]))]))])),
+        (nm("O"), VVal::Null), (nm("O"), int("1")), (VTy::List(Box::new(nm("O"))), VVal::List(vec![])), (nm("O"), obj(vec![])), (nm("Int"), VVal::Var("x".into())),
+    ];
+    for (t, v) in &directed { value_case(ctx, t, v); }
+    let n = if ctx.thorough { 40_000 } else { 3_500 };
+    for _ in 0..n {
+        let ty = gen_vty(ctx, 0);
+        let v = gen_vval(ctx, Some(&ty), 0);
+        value_case(ctx, &ty, &v);
+    }
 }
